@@ -1591,7 +1591,7 @@ class ElectricalCharge(Quantity['ElectricalCharge']):
               'μAh': 0.0036, 'muAh': 0.0036, 'mAh': 3.6, 'cAh': 36.0,
               'dAh': 360.0, 'daAh': 36000.0, 'hAh': 360000.0,
               'kAh': 3600000.0, 'MAh': 3.6E9, 'GAh': 3.6E12, 'TAh': 3.6E15,
-              'PAh': 3.6E18, 'Ah': 3600.0, 'mAs': 1.0, 'F': 96485.3383,
+              'PAh': 3.6E18, 'Ah': 3600.0, 'mAs': 0.001, 'F': 96485.3383,
               'e': 1.602176634E-19, 'statC': 3.335641E-10,
               'Fr': 3.335641E-10, 'esu': 3.335641E-10, 'abC': 10.0,
               'emu': 10.0}
